@@ -1,11 +1,15 @@
 """Source of MANIFEST.json (tools/mkmanifest.py)."""
 PENDING = "check not built yet (machinery under construction; DESIGN.md §9 build order)"
-FIX_COMMITS = ["efb25bc (C20 tower exit on error)"]
+FIX_COMMITS = ["efb25bc (C20 tower exit on error)", "0669e6c (C05 isolation block type)"]
 CHECKS = {
  "C20": dict(
    technique="static analysis: CFG path rules (dominance, must-pass-through) over MIR of the Tower service impls and their async blocks",
    text="Decides, for every non-unwind path of both cfg variants of the Tower service and of the futures they return, that the inner service is called exactly on the admitted arm and that EntryStrongPtr::exit is passed on every completion path (after Poll::Ready, at most once). All paths of the code are covered instead of the sampled request sequences a test would drive; the numeric in-flight count is not computed.",
    note="Trusts rustc's MIR construction (mir_built) and the fact extractor; unwind edges excluded; poll_ready and tonic's interceptor not analysed (tonic 0.8.2 not in the offline cache)."),
+ "C05": dict(
+   technique="static analysis: decision tables extracted from MIR by path enumeration with role-identified comparison atoms (A6), constant/origin checks at blocked sites, sibling agreement of the +1/-1 callbacks",
+   text="Decides the admission predicates of the isolation checker (trip iff in_flight + n > T) and of the hotspot concurrency checker (pass iff in_flight <= limit, limit = per-value override else threshold) for every ordering of the compared quantities, the BlockType/rule/snapshot carried by the rejection, and that the per-value in-flight counter is raised and lowered by one under identical guards. It decides these structural clauses on all paths, not the behaviour over build/exit interleavings (the numeric cap over histories follows only together with C04/C13's pairing rules).",
+   note="Values are touched only through the listed comparisons; NaN ignored; LRU eviction and concurrency (C14) outside this check. Known finding: hotspot concurrency ignores the batch count."),
 }
 NOT_APPLICABLE = {("C%02d" % i): PENDING for i in range(1, 21) if ("C%02d" % i) not in CHECKS}
 NOT_APPLICABLE["C08"] = "numerical trajectory over runtime values (ramp shape, 2p+2 s bound); no structural clause is a necessary condition of the stated bounds (DESIGN.md §3 C08)"
